@@ -258,6 +258,26 @@ func (workingMem *WorkingMemory) Clone(cloneTable *pkg.CloneTable) (*WorkingMemo
 	return nil, fmt.Errorf("clone not equals the origin")
 }
 
+// RemoveUnreferenced removes every expression, expression atom and variable whose AST ID is not in the keep set.
+// It is used to drop the nodes of rules that were parsed but not accepted into the knowledge base.
+func (workingMem *WorkingMemory) RemoveUnreferenced(keep map[string]Meta) {
+	for key, value := range workingMem.expressionSnapshotMap {
+		if _, ok := keep[value.AstID]; !ok {
+			delete(workingMem.expressionSnapshotMap, key)
+		}
+	}
+	for key, value := range workingMem.expressionAtomSnapshotMap {
+		if _, ok := keep[value.AstID]; !ok {
+			delete(workingMem.expressionAtomSnapshotMap, key)
+		}
+	}
+	for key, value := range workingMem.variableSnapshotMap {
+		if _, ok := keep[value.AstID]; !ok {
+			delete(workingMem.variableSnapshotMap, key)
+		}
+	}
+}
+
 // IndexVariables will index all expression and expression atoms that contains a speciffic variable name
 func (workingMem *WorkingMemory) IndexVariables() {
 	if AstLog.Level <= logger.DebugLevel {
